@@ -113,6 +113,10 @@ type family struct {
 	// pairs: under these configs, consecutive first-rule inputs run on TWO instances initialised from the same option
 	// values (Size 64); the first instance is inspected only after the second has parsed
 	pairs     []string
+	// retries: under these configs (never -inline ones), some inputs are parsed on ONE instance without Reset from
+	// several entry rules in turn (rules the reference rejects first, then one it accepts): after failed attempts
+	// a successful Parse(rule) must give the reference's verdict and token sequence
+	retries []string
 	maxDepth  int // drop cases whose derivation nests deeper than this many rule applications (0 = no bound)
 	stateCode func(cs *gcase) func(int) string
 	noexec    bool
@@ -335,9 +339,115 @@ func (f *family) runBatch(peg string, cases []*gcase, vs []variant, bno int) {
 			}
 		}
 	}
+	type rkey struct{ ci, cfi, ei int }
+	type rplan struct {
+		at    int
+		rules []int
+		refs  []refRes
+	}
+	rwhere := map[rkey]rplan{}
+	for ci, cs := range cases {
+		for cfi, cf := range f.configs {
+			use := false
+			for _, h := range f.retries {
+				use = use || h == cf.name
+			}
+			if !use || cf.v.inline || len(cs.g.Rules) < 2 {
+				continue
+			}
+			rr := rand.New(rand.NewSource(int64(cs.id)*7919 + int64(cfi)))
+			planned := 0
+			for ei, e := range cs.entries {
+				if planned >= 6 || refs[ci][ei].it.Over || len(e.input) == 0 {
+					continue
+				}
+				// the reference's view of every rule on this input
+				var failing, accepting []int
+				all := map[int]refRes{}
+				bad := false
+				for ri, rl := range cs.g.Rules {
+					it := ref.New(cs.g, e.input)
+					it.Limit = 200000
+					ok, end := it.Parse(rl.Name)
+					if it.Over || (f.maxDepth > 0 && it.MaxDepth > f.maxDepth) {
+						bad = true
+						break
+					}
+					all[ri] = refRes{it, ok, end}
+					if ok {
+						accepting = append(accepting, ri)
+					} else if it.Cov["lit:ok"]+it.Cov["class:ok"]+it.Cov["negclass:ok"]+it.Cov["dot:ok"] > 0 {
+						failing = append(failing, ri) // failed after matching something
+					}
+				}
+				if bad || len(failing) == 0 || len(accepting) == 0 {
+					continue
+				}
+				rr.Shuffle(len(failing), func(i, j int) { failing[i], failing[j] = failing[j], failing[i] })
+				if len(failing) > 3 {
+					failing = failing[:3]
+				}
+				order := append(append([]int(nil), failing...), accepting[rr.Intn(len(accepting))])
+				pl := rplan{at: len(reqs), rules: order}
+				for _, ri := range order {
+					pl.refs = append(pl.refs, all[ri])
+				}
+				rwhere[rkey{ci, cfi, ei}] = pl
+				reqs = append(reqs, corpus.Req{Pkg: pkgName(cs.id, cf.v), Mode: "retry", In: []byte(e.input), HistEntry: order, Memo: cf.memo, Size: cf.size, U: cf.u, NoExec: true})
+				planned++
+			}
+		}
+	}
 	results, err := cp.Run(reqs, corpus.RunOpts{})
 	if err != nil {
 		die("corpus run: %v", err)
+	}
+	for rk, pl := range rwhere {
+		rs := results[pl.at]
+		cs := cases[rk.ci]
+		cf := f.configs[rk.cfi]
+		if rs.Lost {
+			continue
+		}
+		in := cs.entries[rk.ei].input
+		id := report.Hash(cs.text, "retry", cf.name, in, fmt.Sprint(pl.rules))
+		var names []string
+		for _, ri := range pl.rules {
+			names = append(names, cs.g.Rules[ri].Name)
+		}
+		w := func(extra map[string]any) map[string]any {
+			m := map[string]any{"grammar": cs.text, "config": cf.name, "input": in, "entry_rules_in_turn": names, "note": "one instance, no Reset between the attempts"}
+			for k, v := range extra {
+				m[k] = v
+			}
+			return m
+		}
+		if rs.Fatal != "" || rs.Panic != "" {
+			f.c.run.Violate("retry-crash:"+id, "Parse(rule) attempts in turn on one instance crashed: "+rs.Panic+firstLine(rs.Fatal), w(nil))
+			continue
+		}
+		for k := range rs.Hist {
+			if k >= len(pl.refs) {
+				break
+			}
+			got, want := &rs.Hist[k], pl.refs[k]
+			f.c.run.Eval(1)
+			if got.Panic != "" {
+				f.c.run.Violate("retry-crash:"+id, fmt.Sprintf("attempt %d (rule %s) panicked: %s", k+1, names[k], got.Panic), w(nil))
+				break
+			}
+			if got.OK != want.ok {
+				f.c.run.Violate("retry:"+id, fmt.Sprintf("attempt %d (Parse(rule %s) after %d failed attempts on the same instance): verdict %v, PEG semantics %v", k+1, names[k], k, got.OK, want.ok), w(map[string]any{"got_tokens": tokStrings(got.Toks)}))
+				break
+			}
+			if got.OK {
+				f.c.run.Count("retry_success_after_failed_attempts", 1)
+				if g, wt := tokStrings(got.Toks), refTokStrings(want.it.Toks); g != wt {
+					f.c.run.Violate("retry:"+id, fmt.Sprintf("Parse(rule %s) after %d failed attempts on the same instance: the token sequence is not the derivation's", names[k], k), w(map[string]any{"got_tokens": g, "ref_tokens": wt}))
+				}
+				break
+			}
+		}
 	}
 	for pk, ri := range pwhere {
 		pr := results[ri]
